@@ -79,13 +79,13 @@ Definition C13_hs_recognize_full_window_undecided := @recognize_full_window_unde
 Definition C13_hs_recognize_never_panics := @recognize_never_panics.
 (* consume_request_head: the first CRLFCRLF does not move when more bytes arrive *)
 Definition C13_hs_consume_step_stable := @consume_step_stable.
-(* under every arrival history exactly head + CRLFCRLF is consumed: what follows stays for the tunnel *)
+(* under every arrival history exactly the leading CR / LF bytes, the head and CRLFCRLF are consumed: what follows stays for the tunnel *)
 Definition C13_hs_consume_head_exact := @consume_head_exact.
-(* HTTP and CONNECT: every arrival history gives the outcome of everything arriving at once *)
+(* EVERY stream (HTTP, CONNECT, SOCKS5, well-formed or not), EVERY arrival history: the whole outcome, consumed count included, is the outcome of everything arriving at once *)
 Definition C13_hs_segmentation_independent := @handshake_segmentation_independent.
 (* plain HTTP: the named target (port 80 by default via recognize_http), no answer, NOTHING consumed *)
 Definition C13_hs_plain_http_forwarded_untouched := @plain_http_forwarded_untouched.
-(* CONNECT: the named target, the 200 answer, exactly the request head consumed *)
+(* CONNECT behind ANY number of empty lines: the named target, the 200 answer, exactly the empty lines and the request head consumed *)
 Definition C13_hs_connect_yields_exact_target := @connect_yields_exact_target.
 (* the answers, as text *)
 Definition C13_hs_connect_reply_exact := @connect_reply_exact.
@@ -97,22 +97,16 @@ Definition C13_hs_long_request_line_refused := @long_request_line_refused.
 Definition C13_hs_incomplete_request_times_out := @incomplete_request_times_out.
 (* no complete request line in the window, or a refused target: no tunnel, under any history *)
 Definition C13_hs_refused_opens_no_tunnel := @refused_opens_no_tunnel.
-(* converse: a tunnel of the HTTP branch names the target of a complete request line; plain HTTP consumes nothing, CONNECT exactly up to the first empty line *)
+(* converse: a tunnel of the HTTP branch names the target of a complete request line; plain HTTP consumes nothing, CONNECT exactly up to the first empty line behind the leading CR / LF bytes *)
 Definition C13_hs_http_tunnel_sound := @http_tunnel_sound.
-(* SOCKS5 over FramedRead: a well-formed greeting + request ends as s5_finish says under every history; at least both messages are consumed *)
+(* SOCKS5 (one byte at a time): a well-formed greeting + request ends as s5_finish says under every history; EXACTLY the two messages are consumed, whatever follows them *)
 Definition C13_hs_socks5_handshake_exact := @socks5_handshake_exact.
-(* SOCKS5 CONNECT: the requested target, 05 00 and the success reply with the local address, exactly the handshake consumed when nothing follows *)
+(* SOCKS5 CONNECT: the requested target, 05 00 and the success reply with the local address, exactly the handshake consumed -- early data stays for the tunnel *)
 Definition C13_hs_socks5_connect_exact := @socks5_connect_exact.
-(* ... with early data behind the request: same target and replies, consumed count only bounded *)
-Definition C13_hs_socks5_connect_target_exact := @socks5_connect_target_exact.
 (* BIND and UDP ASSOCIATE get the failure reply: no tunnel *)
 Definition C13_hs_socks5_unsupported_refused := @socks5_unsupported_refused.
-(* whatever the stream: a SOCKS5 tunnel goes to the address of a CONNECT request decoded from the stream behind a decoded greeting *)
+(* whatever the stream: a SOCKS5 tunnel goes to the address of a CONNECT request standing right behind a greeting; exactly those two messages were consumed *)
 Definition C13_hs_socks5_tunnel_sound := @socks5_tunnel_sound.
-(* REFUTED expectation (finding): with data sent before the reply the consumed count depends on the arrival history and early data is dropped *)
-Definition C13_hs_REFUTED_socks5_early_data := @socks5_early_data_refuted.
-(* REFUTED expectation (finding): two empty lines before CONNECT: only they are consumed, the CONNECT request is forwarded into the tunnel *)
-Definition C13_hs_REFUTED_connect_leading_empty_lines := @connect_leading_empty_lines_refuted.
 (* non-vacuity: CONNECT under three histories *)
 Definition C13_hs_example_connect := @ex_drive_connect.
 (* non-vacuity: plain GET under three histories *)
@@ -124,16 +118,17 @@ Definition C13_hs_example_refusals := @ex_drive_refusals.
 (* the CONNECT theorem applies to the example *)
 Definition C13_hs_example_theorem_applies := @ex_connect_by_theorem.
 
-(* EVERY stream (SOCKS5 included, well-formed or not), EVERY history: kind, target and the bytes answered do not depend on the segmentation *)
-Definition C13_hs_independent_modulo_consumed := @handshake_independent_modulo_consumed.
-(* a refusal is a refusal under every history, with the same bytes answered *)
-Definition C13_hs_refusal_independent := @refusal_independent.
-(* SOCKS5: the outcome up to its consumed count is a function of the stream alone *)
-Definition C13_hs_socks5_outcome_modulo_consumed := @socks5_outcome_modulo_consumed.
 
-Check @C13_hs_independent_modulo_consumed.
-Check @C13_hs_refusal_independent.
-Check @C13_hs_socks5_outcome_modulo_consumed.
+(* regression sensitivity: the FramedRead behaviour before fad5d1a (handshake_v0) loses early data depending on the history; the present code consumes 13 bytes under every history *)
+Definition C13_hs_regression_socks5_early_data := @v0_socks5_early_data_lost.
+(* regression sensitivity: before 32d4108 two empty lines before CONNECT made only them be consumed; now the empty lines and the head *)
+Definition C13_hs_regression_connect_empty_lines := @v0_connect_after_empty_lines_forwarded.
+(* non-vacuity: SOCKS5 CONNECT with early data under four histories *)
+Definition C13_hs_example_socks_early_data := @ex_drive_socks_early_data.
+
+Check @C13_hs_regression_socks5_early_data.
+Check @C13_hs_regression_connect_empty_lines.
+Check @C13_hs_example_socks_early_data.
 Check @C13_hs_request_line_prefix_done.
 Check @C13_hs_request_line_prefix_err.
 Check @C13_hs_request_line_sound.
@@ -158,11 +153,8 @@ Check @C13_hs_refused_opens_no_tunnel.
 Check @C13_hs_http_tunnel_sound.
 Check @C13_hs_socks5_handshake_exact.
 Check @C13_hs_socks5_connect_exact.
-Check @C13_hs_socks5_connect_target_exact.
 Check @C13_hs_socks5_unsupported_refused.
 Check @C13_hs_socks5_tunnel_sound.
-Check @C13_hs_REFUTED_socks5_early_data.
-Check @C13_hs_REFUTED_connect_leading_empty_lines.
 Check @C13_hs_example_connect.
 Check @C13_hs_example_get.
 Check @C13_hs_example_socks.
@@ -222,16 +214,13 @@ Print Assumptions C13_hs_refused_opens_no_tunnel.
 Print Assumptions C13_hs_http_tunnel_sound.
 Print Assumptions C13_hs_socks5_handshake_exact.
 Print Assumptions C13_hs_socks5_connect_exact.
-Print Assumptions C13_hs_socks5_connect_target_exact.
 Print Assumptions C13_hs_socks5_unsupported_refused.
 Print Assumptions C13_hs_socks5_tunnel_sound.
-Print Assumptions C13_hs_REFUTED_socks5_early_data.
-Print Assumptions C13_hs_REFUTED_connect_leading_empty_lines.
 Print Assumptions C13_hs_example_connect.
 Print Assumptions C13_hs_example_get.
 Print Assumptions C13_hs_example_socks.
 Print Assumptions C13_hs_example_refusals.
 Print Assumptions C13_hs_example_theorem_applies.
-Print Assumptions C13_hs_independent_modulo_consumed.
-Print Assumptions C13_hs_refusal_independent.
-Print Assumptions C13_hs_socks5_outcome_modulo_consumed.
+Print Assumptions C13_hs_regression_socks5_early_data.
+Print Assumptions C13_hs_regression_connect_empty_lines.
+Print Assumptions C13_hs_example_socks_early_data.
